@@ -196,6 +196,12 @@ def run(F, R):
             R.holds("C14-R1", key, "allowlisted: " + e["reason"])
             continue
         R.violation("C14-R1", key, "panic-capable site %s in %s is neither proved safe nor allowlisted" % (desc, bv.name), s_["loc"])
+    # an allowlist entry that rests on a rule of another property is only as good as that rule's verdict here:
+    # `update_finish_time.unwrap()` is safe because the report-once flag is set only under `is_some()` (C18-R4)
+    if any(k[0] == "api:Option::unwrap" and "'update_finish_time'" in k[1] for k in used_allow):
+        from . import c18 as _c18
+        from .. import report as _report
+        _c18.run(F, _report.SubsetAlias(R, {"C18-R4": "C14-R1"}, prefix="premise:C18-R4:", keys={"flag", "report-guarded-by-flag", "flag-set-only-if-finish-time"}))
     R.count("proved", nproved)
     R.count("allowlisted", nallow)
     stale = [k for k in allow_idx if k not in used_allow]
